@@ -19,7 +19,8 @@ CHECK = {
              "element must be able to stand at its global position under ties, and more <=> limit>0 and |M|>skip+limit. "
              "Non-trivial: a search with |M|>=2 and (>=2 files with a shadowed ID, or limit+skip<|M|, or OR/NOT/tag in the query); "
              "distinct = distinct (population, tags, searches). "
-             "Sub-query campaign (TestVerifC02Sub): the same populations without tags; 1-8 searches per case made of one or two OR-ed parts; a part has one sub-query s or two "
+             "Every search is run twice on the same index files and tag table and must give the same answer (a search changes nothing it reads). "
+             "Sub-query campaign (TestVerifC02Sub): the same populations with up to two tags defined by one host, port or size filter (decided for some streams, pending for others, so that the definition is inlined and, inside a sub-query, re-scoped) that sub-query filters (@s:tag:a) and main filters (tag:a) may name; 1-8 searches per case on one tag table made of one or two OR-ed parts; a part has one sub-query s or two "
              "sub-queries a, b, each with 1-2 own filters (@s:cport/sport/port/id range/cbytes/protocol/chost/cdata literal, optionally a capture @s:cdata:\"(?P<v>k[0-9])\" "
              "binding v), 1-2 main filters using its values (id/cport/sport/cbytes/sbytes equal / at least / at most @s:var@+-d, chost/shost/host equal to @s:chost@/@s:shost@ also "
              "under /8 and /24 masks, ftime/ltime against @s:ftime@/@s:ltime@ +-5s, cdata/sdata containing @s:v@) and 0-2 plain main filters; every filter except the capture is negated "
